@@ -366,6 +366,24 @@ def appRun : List PipeSpec → Nat → Bool → Option Nat → Option Nat → Li
     else if fi == some i then [i]
     else i :: appRun ps (i + 1) (stopping || sd == some i) sd fi
 
+/-- where, relative to pipeline `j`, `Application.stop()` is called: from a `pipeline_begin` listener (after the
+skippable test, before `process()`), while `process()` runs (a task, a signal — also in the steps in which the
+pipeline is already `stopping` / `stopped` but `process()` has not returned), or from a `pipeline_end` listener -/
+inductive StopAt | begin | during | «end»
+  deriving DecidableEq, Repr
+
+/-- `Application.run()` with the stop point made explicit; `Application.stop()` sets the application state to
+`stopping` whatever the state of the current pipeline is -/
+def appRunP : List PipeSpec → Nat → Bool → Option (StopAt × Nat) → Option Nat → List Nat
+  | [], _, _, _, _ => []
+  | p :: ps, i, stopping, sp, fi =>
+    if stopping && p.skippable then appRunP ps (i + 1) stopping sp fi
+    else
+      let s1 := stopping || sp == some (.begin, i)      -- pipeline_begin listeners
+      let s2 := s1 || sp == some (.during, i)           -- process()
+      if fi == some i then [i]
+      else i :: appRunP ps (i + 1) (s2 || sp == some (.end, i)) sp fi   -- pipeline_end listeners
+
 /-- the series `Builder._build_pipelines` builds: start-up, download, download-stop, link conversion, shutdown -/
 def wpullSeries : List PipeSpec :=
   [⟨false, false⟩, ⟨true, true⟩, ⟨false, true⟩, ⟨true, true⟩, ⟨false, false⟩]
